@@ -3,6 +3,7 @@ import St4sd.Lemmas.C16Split
 import St4sd.Lemmas.C16Decode
 import St4sd.Lemmas.C16Fs
 import St4sd.Lemmas.C16Multi
+import St4sd.Lemmas.C16Cache
 /-!
 # C16 — Memoization hashes identify equivalent work and nothing else
 
@@ -865,5 +866,452 @@ example : hashOne (fun x => 'h' :: x) false exBps [] (exMerge [exCfg "first.cfg"
     hashOne (fun x => 'h' :: x) false exBps [] (exMerge [exCfg "first.cfg"]).distinctRefs ∧
     hashOne (fun x => 'h' :: x) false exBps [] (exMerge [exCfg "first.cfg", exCfg "second.cfg"]).distinctRefs ≠
     hashOne (fun x => 'h' :: x) false exBps [] (exMerge [exCfg "first.cfg"]).distinctRefs := by decide
+
+/-! ### chains of producers: no hash down the chain from a missing input
+
+"No hash is produced while a referenced input is missing … for every chain of producers": the hash of a
+component *stands on* the hash of a producer when it names the producer's working directory in its arguments
+(the reference is replaced by `producer:<hash>`), and — for the fuzzy hash — when it consumes a file of the
+producer (`fuzzy#<fuzzy hash of the producer>#<file>`).  A component whose producer has no hash then has no
+hash either, by induction along any chain. -/
+
+/-- the hash (`fuzzy`: the fuzzy hash) of `c` stands on the hash of producer `p` through reference `r` -/
+inductive StandsOn (fuzzy : Bool) (c : Comp) (r : Ref) (p : Nat) : Prop
+  /-- the working directory of `p`, named in the arguments (no other reference with the same absolute
+  spelling points to a file) -/
+  | dir : r.target = .prodDir p → ((tokens c.args).contains r.abs = true ∨ (tokens c.args).contains r.rel = true) →
+      (∀ r' ∈ c.refs, r'.abs = r.abs → r'.target = .prodDir p) → StandsOn fuzzy c r p
+  /-- a file of `p` that is there, fuzzy hash -/
+  | file (content : S) : fuzzy = true → r.target = .prodFile p (some content) → StandsOn fuzzy c r p
+
+private theorem fileEntries_fail (md5 : S → S) (fuzzy : Bool) (ph : Nat → Option S) (l : List Ref)
+    (r : Ref) (hr : r ∈ l) (h : entryOf md5 fuzzy ph r = .fail) : fileEntries md5 fuzzy ph l = none := by
+  induction l with
+  | nil => cases hr
+  | cons x xs ih =>
+    simp only [fileEntries]
+    rcases List.mem_cons.mp hr with rfl | hx
+    · simp [h]
+    · split
+      · rfl
+      · exact ih hx
+      · simp [ih hx]
+
+private theorem fileEntries_abs (md5 : S → S) (fuzzy : Bool) (ph : Nat → Option S) (l : List Ref)
+    (E : List FileEntry) (h : fileEntries md5 fuzzy ph l = some E) :
+    ∀ e ∈ E, ∃ r ∈ l, entryOf md5 fuzzy ph r = .entry e ∧ e.abs = r.abs := by
+  induction l generalizing E with
+  | nil => simp only [fileEntries, Option.some.injEq] at h; subst h; simp
+  | cons x xs ih =>
+    simp only [fileEntries] at h
+    cases he : entryOf md5 fuzzy ph x with
+    | fail => simp [he] at h
+    | skip =>
+      simp only [he] at h
+      intro e hmem
+      obtain ⟨r, hr, h1, h2⟩ := ih E h e hmem
+      exact ⟨r, List.mem_cons_of_mem _ hr, h1, h2⟩
+    | entry e0 =>
+      simp only [he] at h
+      cases hxs : fileEntries md5 fuzzy ph xs with
+      | none => simp [hxs] at h
+      | some E' =>
+        simp only [hxs, Option.map_some, Option.some.injEq] at h
+        subst h
+        intro e hmem
+        rcases List.mem_cons.mp hmem with rfl | hmem
+        · refine ⟨x, List.mem_cons_self .., he, ?_⟩
+          unfold entryOf at he
+          split at he <;> (try split at he) <;> (try split at he) <;> (try split at he) <;>
+            first | (cases he; done) | (injection he with he; subst he; rfl)
+        · obtain ⟨r, hr, h1, h2⟩ := ih E' hxs e hmem
+          exact ⟨r, List.mem_cons_of_mem _ hr, h1, h2⟩
+
+private theorem replaceRefs_fail (fuzzy : Bool) (toks : List S) (es : List FileEntry) (ph : Nat → Option S)
+    (l : List Ref) (r : Ref) (hr : r ∈ l) (htok : toks.contains r.abs = true ∨ toks.contains r.rel = true)
+    (hrep : replacementOf fuzzy es ph r = none) (a : S) : replaceRefs fuzzy toks es ph l a = none := by
+  induction l generalizing a with
+  | nil => cases hr
+  | cons x xs ih =>
+    simp only [replaceRefs]
+    rcases List.mem_cons.mp hr with rfl | hx
+    · rcases htok with ht | ht
+      · have ht' : r.abs ∈ toks := by simpa using ht
+        simp [ht', hrep]
+      · have ht' : r.rel ∈ toks := by simpa using ht
+        by_cases ha : r.abs ∈ toks <;> simp [ha, ht', hrep]
+    · split
+      · exact ih hx a
+      · split
+        · rfl
+        · exact ih hx a
+        · exact ih hx _
+
+/-- **No hash without the producer's hash**: a component whose hash stands on the hash of a producer that has
+none has no hash (strong: working directory of the producer named in the arguments; fuzzy: also any file of
+the producer). -/
+theorem no_hash_when_producer_has_no_hash (md5 : S → S) (fuzzy : Bool) (bps : Blueprints) (hs : List (Option S))
+    (c : Comp) (r : Ref) (p : Nat) (hr : r ∈ c.refs) (hst : StandsOn fuzzy c r p) (hp : getH hs p = none) :
+    hashOne md5 fuzzy bps hs c = none := by
+  have hrs : r ∈ sortRefs c.refs := (mem_sortRefs r c.refs).mpr hr
+  simp only [hashOne, mkInfo]
+  split
+  · rfl
+  · simp only [infoCore]
+    cases hst with
+    | file content hf ht =>
+      subst hf
+      have : entryOf md5 true (getH hs) r = .fail := by simp [entryOf, ht, hp]
+      simp [fileEntries_fail md5 true _ _ r hrs this]
+    | dir ht htok hsame =>
+      cases hE : fileEntries md5 fuzzy (getH hs) (sortRefs c.refs) with
+      | none => simp
+      | some E =>
+        have hfind : E.find? (fun e => e.abs == r.abs) = none := by
+          rw [List.find?_eq_none]
+          intro e he heq
+          obtain ⟨r', hr', hent, habs⟩ := fileEntries_abs md5 fuzzy _ _ E hE e he
+          have h1 : r'.abs = r.abs := by rw [← habs]; simpa using heq
+          have h2 := hsame r' ((mem_sortRefs r' c.refs).mp hr') h1
+          simp only [entryOf, h2] at hent
+          split at hent <;> cases hent
+        have hrep : replacementOf fuzzy E (getH hs) r = none := by
+          simp [replacementOf, hfind, ht, Target.producer?, hp]
+        simp [replaceRefs_fail fuzzy _ E _ _ r hrs htok hrep]
+
+/-- a component cannot have a (strong / fuzzy) hash: a file it consumes is missing, or its hash stands on the
+hash of a producer that cannot have one — along a chain of producers of any length -/
+inductive Unhashable (fuzzy : Bool) (cs : List Comp) : Nat → Prop
+  | missing (k : Nat) (c : Comp) (r : Ref) : cs[k]? = some c → r ∈ c.refs → r.Missing → Unhashable fuzzy cs k
+  | chain (k p : Nat) (c : Comp) (r : Ref) : cs[k]? = some c → r ∈ c.refs → StandsOn fuzzy c r p →
+      Unhashable fuzzy cs p → Unhashable fuzzy cs k
+
+/-- **No hash down the chain** (every chain of producers): in the hashes of a whole graph, every component
+that is `Unhashable` — a missing input anywhere up a chain of hash-carrying references — has no hash. -/
+theorem no_hash_down_the_chain (md5 : S → S) (fuzzy : Bool) (bps : Blueprints) (cs : List Comp) (k : Nat)
+    (h : Unhashable fuzzy cs k) : (hashes md5 fuzzy bps cs)[k]? = some none := by
+  induction h with
+  | missing k c r hk hr hm =>
+    rw [hashes_at md5 fuzzy bps cs k c hk, no_hash_when_input_missing md5 fuzzy bps _ c r hr hm]
+  | chain k p c r hk hr hst _ ih =>
+    rw [hashes_at md5 fuzzy bps cs k c hk]
+    congr 1
+    apply no_hash_when_producer_has_no_hash md5 fuzzy bps _ c r p hr hst
+    rw [getH_take]
+    split
+    · simp [getH_eq, ih]
+    · rfl
+
+private def exGen : Comp :=
+  { name := "gen".toList, stage := 0, location := [], mtime := 0, replica := none, exe := "/bin/echo".toList,
+    args := "hello".toList, refs := [], backend := .loc }
+private def exMiddle (content : Option S) : Comp :=
+  { name := "middle".toList, stage := 0, location := [], mtime := 0, replica := none, exe := "/bin/cat".toList,
+    args := "gen/out.txt:ref".toList,
+    refs := [⟨"stage0.gen/out.txt:ref".toList, "gen/out.txt:ref".toList, "ref".toList, "out.txt".toList,
+              .prodFile 0 content⟩], backend := .loc }
+private def exLast : Comp :=
+  { name := "consumer".toList, stage := 0, location := [], mtime := 0, replica := none, exe := "/bin/ls".toList,
+    args := "-l stage0.middle:ref".toList,
+    refs := [⟨"stage0.middle:ref".toList, "middle:ref".toList, "ref".toList, [], .prodDir 1⟩], backend := .loc }
+private def exChainBps : Blueprints :=
+  [((0, "gen".toList), "/bin/echo".toList), ((0, "middle".toList), "/bin/cat".toList),
+   ((0, "consumer".toList), "/bin/ls".toList)]
+
+/-- non-vacuity: `consumer → directory of middle → file of gen`; with the file of `gen` missing the consumer is
+`Unhashable` (and has no hash), with the file there all three have a hash -/
+example : Unhashable false [exGen, exMiddle none, exLast] 2 :=
+  .chain 2 1 exLast _ rfl (List.mem_cons_self ..) (.dir rfl (by decide) (by decide))
+    (.missing 1 (exMiddle none) _ rfl (List.mem_cons_self ..) (.inr ⟨0, rfl⟩))
+
+example : (hashes (fun x => 'h' :: x) false exChainBps [exGen, exMiddle none, exLast]).map Option.isSome =
+    [true, false, false] := by decide
+
+example : (hashes (fun x => 'h' :: x) false exChainBps [exGen, exMiddle (some "AAA".toList), exLast]).map
+    Option.isSome = [true, true, true] := by decide
+
+/-! ### the producer cone, and sessions that remember hashes (`Model/HashCache.lean`)
+
+`ComponentSpecification` remembers the first hash it could compute.  The theorems below say when that is
+harmless — for every session (any interleaving of file changes, evaluations, resets and reads):
+
+* the hash of a component depends only on the files the components of its **producer cone** refer to;
+* a session is `Disciplined` when no file changes under the producer cone of a hash that is remembered at that
+  moment (the real Controller: a hash is asked for only after every producer up the chain has finished);
+* in a disciplined session every remembered hash — so every hash that is read — is the hash of the contents
+  **at that moment** (`session_hashes_are_current`, `session_reads_are_current`);
+* `Witness.C16.early_request_freezes_stale_hash`: without the discipline (the hash of a waiting consumer is asked
+  for while a producer is half-way through writing its output) the remembered hash is not that of the final
+  contents. -/
+
+/-- the hashes at the positions of a producer-closed set `K` are the same on two file systems that agree on
+the paths the components of `K` refer to — whatever happens to every other path (the outputs that components
+outside the cone are still writing) -/
+theorem hash_depends_only_on_producer_cone (md5 : S → S) (fuzzy : Bool) (bps : Blueprints) (cs : List SComp)
+    (fs₁ fs₂ : Fs) (K : Nat → Prop)
+    (hclosed : ∀ k, K k → ∀ c, cs[k]? = some c → ∀ r ∈ c.refs, ∀ p, r.loc.producer? = some p → K p)
+    (hagree : ∀ k, K k → ∀ c, cs[k]? = some c → ∀ r ∈ c.refs, view fs₁ r.loc.path = view fs₂ r.loc.path) :
+    ∀ k, K k → (hashesFs md5 fuzzy bps fs₁ cs)[k]? = (hashesFs md5 fuzzy bps fs₂ cs)[k]? := by
+  unfold hashesFs
+  apply hashes_congr_on md5 fuzzy bps _ _ K (by simp)
+  intro k hk
+  simp only [List.getElem?_map]
+  cases hc : cs[k]? with
+  | none => simp
+  | some c =>
+    have heq : c.resolve fs₁ = c.resolve fs₂ := resolve_comp_congr fs₁ fs₂ c (hagree k hk c hc)
+    refine ⟨by simp [heq], ?_⟩
+    intro c' hc' r' hr' p hp
+    simp only [Option.map_some, Option.some.injEq] at hc'
+    subst hc'
+    obtain ⟨r, hr, rfl⟩ := mem_resolve_refs fs₁ c r' hr'
+    rw [resolve_producer] at hp
+    exact hclosed k hk c hc r hr p hp
+
+/-- every remembered hash is the hash of the current contents -/
+def Fresh (md5 : S → S) (bps : Blueprints) (cs : List SComp) (s : Session) : Prop :=
+  ∀ fuzzy j h, getH (s.cache fuzzy) j = some h → getH (hashesFs md5 fuzzy bps s.fs cs) j = some h
+
+/-- producers come before their consumers -/
+def WellOrdered (cs : List SComp) : Prop :=
+  ∀ (j : Nat) (c : SComp), cs[j]? = some c → ∀ r ∈ c.refs, ∀ p, r.loc.producer? = some p → p < j
+
+/-- the file system may change by `op` now: some producer-closed set of components contains every component
+with a remembered hash, and `op` touches no path a component of the set refers to -/
+def FsOk (cs : List SComp) (s : Session) (op : Op) : Prop :=
+  ∃ K : Nat → Prop,
+    (∀ k, K k → ∀ c, cs[k]? = some c → ∀ r ∈ c.refs, ∀ p, r.loc.producer? = some p → K p) ∧
+    (∀ fuzzy j h, getH (s.cache fuzzy) j = some h → K j) ∧
+    (∀ k, K k → ∀ c, cs[k]? = some c → ∀ r ∈ c.refs, r.loc.path ∉ op.paths)
+
+/-- the discipline: every change of the file system is `FsOk` at its moment (evaluations, reads and resets are
+free) -/
+def Disciplined (md5 : S → S) (bps : Blueprints) (cs : List SComp) : Session → List SOp → Prop
+  | _, [] => True
+  | s, e :: rest =>
+    (match e with
+      | .fs op => FsOk cs s op
+      | _ => True) ∧ Disciplined md5 bps cs (stepS md5 bps cs s e) rest
+
+private theorem cache_setCache (s : Session) (f f' : Bool) (c : List (Option S)) :
+    (s.setCache f c).cache f' = if f' = f then c else s.cache f' := by
+  cases f <;> cases f' <;> simp [Session.setCache, Session.cache]
+
+private theorem fs_setCache (s : Session) (f : Bool) (c : List (Option S)) : (s.setCache f c).fs = s.fs := by
+  cases f <;> simp [Session.setCache]
+
+private theorem getH_hashesFs_at (md5 : S → S) (fuzzy : Bool) (bps : Blueprints) (cs : List SComp) (fs : Fs)
+    (j : Nat) (c : SComp) (hc : cs[j]? = some c) :
+    getH (hashesFs md5 fuzzy bps fs cs) j =
+      hashOne md5 fuzzy bps ((hashesFs md5 fuzzy bps fs cs).take j) (c.resolve fs) := by
+  have : (cs.map (SComp.resolve fs))[j]? = some (c.resolve fs) := by simp [hc]
+  rw [getH_eq]
+  unfold hashesFs
+  rw [hashes_at md5 fuzzy bps _ j _ this]
+  rfl
+
+/-- evaluating a hash — of any component, at any moment, whatever is remembered for its producers — keeps
+every remembered hash current: a hash that can be computed from the remembered hashes of the producers is the
+hash the whole graph gives (`hashOne_mono`) -/
+theorem compute_preserves_fresh (md5 : S → S) (bps : Blueprints) (cs : List SComp) (s : Session)
+    (hwo : WellOrdered cs) (hf : Fresh md5 bps cs s) (fuzzy : Bool) (j : Nat) :
+    Fresh md5 bps cs (stepS md5 bps cs s (.compute fuzzy j)) := by
+  intro f' k h hg
+  simp only [stepS, cache_setCache, fs_setCache] at hg ⊢
+  split at hg
+  · rename_i hff
+    subst hff
+    unfold computeAt at hg
+    cases hc : cs[j]? with
+    | none => simp only [hc] at hg; exact hf _ k h hg
+    | some c =>
+      simp only [hc] at hg
+      cases hj : getH (s.cache f') j with
+      | some v => simp only [hj] at hg; exact hf _ k h hg
+      | none =>
+        simp only [hj] at hg
+        rcases getH_set _ j k _ h hg with ⟨rfl, hv⟩ | hold
+        · rw [getH_hashesFs_at md5 f' bps cs s.fs k c hc]
+          apply hashOne_mono md5 f' bps _ _ _ h _ hv
+          intro r' hr' p hp h' hh'
+          obtain ⟨r, hr, rfl⟩ := mem_resolve_refs s.fs c r' hr'
+          rw [resolve_producer] at hp
+          have hpk : p < k := hwo k c hc r hr p hp
+          rw [getH_take, if_pos hpk]
+          exact hf _ p h' hh'
+        · exact hf _ k h hold
+  · exact hf _ k h hg
+
+theorem reset_preserves_fresh (md5 : S → S) (bps : Blueprints) (cs : List SComp) (s : Session)
+    (hf : Fresh md5 bps cs s) (j : Nat) : Fresh md5 bps cs (stepS md5 bps cs s (.reset j)) := by
+  intro f' k h hg
+  have : getH (s.cache f') k = some h := by
+    cases f' <;> simp only [stepS, Session.cache] at hg <;>
+      (rcases getH_set _ j k none h (by simpa using hg) with ⟨_, hv⟩ | hold
+       · cases hv
+       · simpa [Session.cache] using hold)
+  exact hf f' k h this
+
+/-- a change of the file system outside the producer cones of the remembered hashes keeps them current -/
+theorem fsop_preserves_fresh (md5 : S → S) (bps : Blueprints) (cs : List SComp) (s : Session)
+    (hf : Fresh md5 bps cs s) (op : Op) (hok : FsOk cs s op) :
+    Fresh md5 bps cs (stepS md5 bps cs s (.fs op)) := by
+  obtain ⟨K, hclosed, hcached, hframe⟩ := hok
+  intro f' k h hg
+  have hg' : getH (s.cache f') k = some h := by cases f' <;> simpa [stepS, Session.cache] using hg
+  have hk : K k := hcached f' k h hg'
+  have := hash_depends_only_on_producer_cone md5 f' bps cs (step s.fs op) s.fs K hclosed
+    (fun k hk c hc r hr => view_step_other s.fs op _ (hframe k hk c hc r hr)) k hk
+  simp only [stepS, getH_eq, this]
+  rw [← getH_eq]
+  exact hf f' k h hg'
+
+/-- **Remembered hashes stay current.**  In every disciplined session — any interleaving of file changes,
+evaluations of the hash of any component in any order, resets and reads — that starts with current hashes (for
+instance with nothing remembered), every remembered hash is, at the end, the hash of the contents at the end. -/
+theorem session_hashes_are_current (md5 : S → S) (bps : Blueprints) (cs : List SComp) (hwo : WellOrdered cs)
+    (s : Session) (evs : List SOp) (hf : Fresh md5 bps cs s) (hd : Disciplined md5 bps cs s evs) :
+    Fresh md5 bps cs (runS md5 bps cs s evs) := by
+  induction evs generalizing s with
+  | nil => exact hf
+  | cons e rest ih =>
+    obtain ⟨he, hrest⟩ := hd
+    simp only [runS, List.foldl_cons]
+    apply ih _ _ hrest
+    cases e with
+    | fs op => exact fsop_preserves_fresh md5 bps cs s hf op he
+    | compute fuzzy j => exact compute_preserves_fresh md5 bps cs s hwo hf fuzzy j
+    | reset j => exact reset_preserves_fresh md5 bps cs s hf j
+    | get fuzzy j => exact hf
+
+private theorem disciplined_prefix (md5 : S → S) (bps : Blueprints) (cs : List SComp) (s : Session)
+    (pre post : List SOp) (h : Disciplined md5 bps cs s (pre ++ post)) : Disciplined md5 bps cs s pre := by
+  induction pre generalizing s with
+  | nil => trivial
+  | cons e rest ih => exact ⟨h.1, ih _ h.2⟩
+
+private theorem runS_append (md5 : S → S) (bps : Blueprints) (cs : List SComp) (s : Session) (a b : List SOp) :
+    runS md5 bps cs s (a ++ b) = runS md5 bps cs (runS md5 bps cs s a) b := by
+  simp [runS, List.foldl_append]
+
+/-- **Every hash that is read is the hash of the contents at that moment**: in a disciplined session that
+starts with nothing remembered, whatever an evaluation leaves in the cache and whatever a reader gets
+(`answerOf`), at any point of the session, is the hash `hashesFs` gives on the file system of that moment. -/
+theorem session_reads_are_current (md5 : S → S) (bps : Blueprints) (cs : List SComp) (hwo : WellOrdered cs)
+    (fs : Fs) (pre post : List SOp) (fuzzy : Bool) (j : Nat) (h : S) (e : SOp)
+    (he : e = .get fuzzy j ∨ e = .compute fuzzy j)
+    (hd : Disciplined md5 bps cs (Session.new fs cs.length) (pre ++ e :: post))
+    (ha : answerOf (runS md5 bps cs (Session.new fs cs.length) (pre ++ [e])) e = some h) :
+    getH (hashesFs md5 fuzzy bps (runS md5 bps cs (Session.new fs cs.length) (pre ++ [e])).fs cs) j = some h := by
+  have hnew : Fresh md5 bps cs (Session.new fs cs.length) := by
+    intro f k h' hg
+    cases f <;> simp [Session.new, Session.cache, getH_eq, List.getElem?_replicate] at hg <;>
+      (split at hg <;> simp at hg)
+  have hd' : Disciplined md5 bps cs (Session.new fs cs.length) (pre ++ [e]) := by
+    have : pre ++ e :: post = (pre ++ [e]) ++ post := by simp
+    exact disciplined_prefix md5 bps cs _ _ post (this ▸ hd)
+  have hfr := session_hashes_are_current md5 bps cs hwo _ _ hnew hd'
+  rcases he with rfl | rfl <;> exact hfr fuzzy j h (by simpa [answerOf] using ha)
+
+/-- after `memoization_reset()` of every component (or on a new experiment object) nothing is remembered: the
+next evaluations are those of the current files, whatever happened before -/
+theorem new_session_is_fresh (md5 : S → S) (bps : Blueprints) (cs : List SComp) (fs : Fs) (n : Nat) :
+    Fresh md5 bps cs (Session.new fs n) := by
+  intro f k h' hg
+  cases f <;> simp [Session.new, Session.cache, getH_eq, List.getElem?_replicate] at hg <;>
+    (split at hg <;> simp at hg)
+
+/-! #### the checker the driver runs on recorded sessions is sound -/
+
+private theorem touched_eq_paths (op : Op) : op.touched = op.paths := by cases op <;> rfl
+
+private theorem closedB_sound (cs : List SComp) (K : List Nat) (h : closedB cs K = true) :
+    ∀ k, k ∈ K → ∀ c, cs[k]? = some c → ∀ r ∈ c.refs, ∀ p, r.loc.producer? = some p → p ∈ K := by
+  intro k hk c hc r hr p hp
+  simp only [closedB, List.all_eq_true] at h
+  have := h k hk
+  simp only [hc, List.all_eq_true] at this
+  simpa using this p (mem_producersOf c r p hr hp)
+
+private theorem frameB_sound (cs : List SComp) (K : List Nat) (op : Op) (h : frameB cs K op = true) :
+    ∀ k, k ∈ K → ∀ c, cs[k]? = some c → ∀ r ∈ c.refs, r.loc.path ∉ op.paths := by
+  intro k hk c hc r hr
+  simp only [frameB, List.all_eq_true] at h
+  have := h k hk
+  simp only [hc, List.all_eq_true] at this
+  have := this r hr
+  rw [touched_eq_paths] at this
+  simpa using this
+
+theorem fsOkB_sound (cs : List SComp) (s : Session) (op : Op) (h : fsOkB cs s op = true) : FsOk cs s op := by
+  simp only [fsOkB, Bool.and_eq_true, List.all_eq_true] at h
+  obtain ⟨⟨hc, hcl⟩, hfr⟩ := h
+  refine ⟨fun k => k ∈ coneOf cs cs.length (cachedIdx s.strong ++ cachedIdx s.fuzzy), closedB_sound cs _ hcl, ?_,
+    frameB_sound cs _ op hfr⟩
+  intro fuzzy j h' hg
+  have hmem : j ∈ cachedIdx s.strong ++ cachedIdx s.fuzzy := by
+    cases fuzzy
+    · exact List.mem_append_left _ (mem_cachedIdx _ j h' (by simpa [Session.cache] using hg))
+    · exact List.mem_append_right _ (mem_cachedIdx _ j h' (by simpa [Session.cache] using hg))
+  simpa using hc j hmem
+
+/-- a session the checker accepts is `Disciplined` -/
+theorem disciplinedB_sound (md5 : S → S) (bps : Blueprints) (cs : List SComp) (s : Session) (evs : List SOp)
+    (h : disciplinedB md5 bps cs s evs = true) : Disciplined md5 bps cs s evs := by
+  induction evs generalizing s with
+  | nil => trivial
+  | cons e rest ih =>
+    simp only [disciplinedB, Bool.and_eq_true] at h
+    refine ⟨?_, ih _ h.2⟩
+    cases e with
+    | fs op => exact fsOkB_sound cs s op h.1
+    | compute fuzzy j => trivial
+    | reset j => trivial
+    | get fuzzy j => trivial
+
+theorem wellOrderedB_sound (cs : List SComp) (h : wellOrderedB cs = true) : WellOrdered cs := by
+  intro j c hc r hr p hp
+  simp only [wellOrderedB, List.all_eq_true, List.mem_range] at h
+  have hj : j < cs.length := by
+    rcases Nat.lt_or_ge j cs.length with h' | h'
+    · exact h'
+    · rw [List.getElem?_eq_none h'] at hc; cases hc
+  have := h j hj
+  simp only [hc, List.all_eq_true] at this
+  simpa using this p (mem_producersOf c r p hr hp)
+
+/-- … so for a recorded session that the driver reports as disciplined and well ordered, every hash that was
+read is the hash of the contents at that moment -/
+theorem checked_session_reads_are_current (md5 : S → S) (bps : Blueprints) (cs : List SComp) (fs : Fs)
+    (evs : List SOp) (hwo : wellOrderedB cs = true)
+    (hd : disciplinedB md5 bps cs (Session.new fs cs.length) evs = true) :
+    Fresh md5 bps cs (runS md5 bps cs (Session.new fs cs.length) evs) :=
+  session_hashes_are_current md5 bps cs (wellOrderedB_sound cs hwo) _ evs
+    (new_session_is_fresh md5 bps cs fs cs.length) (disciplinedB_sound md5 bps cs _ evs hd)
+
+private def exProducer : SComp :=
+  { name := "gen".toList, stage := 0, location := [], mtime := 0, replica := none, exe := "/bin/echo".toList,
+    args := "hello".toList, refs := [], backend := .loc }
+private def exWaiting : SComp :=
+  { name := "use".toList, stage := 0, location := [], mtime := 0, replica := none, exe := "/bin/cat".toList,
+    args := "gen/out.txt:ref".toList,
+    refs := [⟨"stage0.gen/out.txt:ref".toList, "gen/out.txt:ref".toList, "ref".toList, "out.txt".toList,
+              .produced 0 "/i/gen/out.txt".toList⟩], backend := .loc }
+private def exSessionBps : Blueprints := [((0, "gen".toList), "/bin/echo".toList), ((0, "use".toList), "/bin/cat".toList)]
+/-- the hash of the producer is remembered, the producer writes its output in two pieces, then the hash of the
+consumer is evaluated and read -/
+private def exSession : List SOp :=
+  [.compute false 0, .fs (.write "/i/gen/out.txt".toList "par".toList 1 1), .get false 1,
+   .fs (.write "/i/gen/out.txt".toList "partial".toList 2 1), .compute false 1, .compute true 0, .compute true 1, .get false 1]
+
+/-- non-vacuity: a session with remembered hashes *and* file changes that is `Disciplined` and `WellOrdered`;
+the hash that is read at its end exists -/
+example : Disciplined (fun x => 'h' :: x) exSessionBps [exProducer, exWaiting] (Session.new [] 2) exSession :=
+  disciplinedB_sound _ _ _ _ _ (by decide)
+
+example : WellOrdered [exProducer, exWaiting] := wellOrderedB_sound _ (by decide)
+
+example : (answers (fun x => 'h' :: x) exSessionBps [exProducer, exWaiting] (Session.new [] 2) exSession).map
+    Option.isSome = [true, false, false, false, true, true, true, true] := by decide
 
 end St4sd.C16
